@@ -29,8 +29,14 @@ func (a *config) MergeSpoc(d deviceconf.Config) deviceconf.Config {
 				errlog.Abort("Must not redefine chain %q of table %q from rawdata",
 					cName, tName)
 			}
+			// Position where next rule from raw is prepended.
+			// This preserves the order of multiple prepended rules.
+			prepend := 0
 			for _, ru := range bChain.rules {
-				i := 0
+				i := prepend
+				if !ru.append {
+					prepend++
+				}
 				if ru.append {
 					// Append before last non DROP line.
 					i = len(aChain.rules)
